@@ -8,9 +8,11 @@ package httpc
 // httpx.Parse; the parsed struct must equal the one that was sent.
 
 import (
+	"bytes"
 	"context"
 	"errors"
 	"fmt"
+	"io"
 	"math/rand"
 	"net/http"
 	"net/http/httptest"
@@ -238,6 +240,8 @@ type c05rServer struct {
 	got     reflect.Value
 	err     error
 	pv      any
+	err2    error
+	got2    reflect.Value
 	stack   string
 	hits    int
 	srv     *httptest.Server
@@ -254,6 +258,8 @@ func (s *c05rServer) parse(w http.ResponseWriter, r *http.Request) {
 	s.mu.Lock()
 	defer s.mu.Unlock()
 	s.hits++
+	body, _ := io.ReadAll(r.Body)
+	reset := func() { r.Body = io.NopCloser(bytes.NewReader(body)) }
 	v := s.shape.New()
 	func() {
 		defer func() {
@@ -262,9 +268,35 @@ func (s *c05rServer) parse(w http.ResponseWriter, r *http.Request) {
 				s.stack = string(debug.Stack())
 			}
 		}()
+		reset()
 		s.err = httpx.Parse(r, v.Interface())
+		// the four part parsers one by one on a second struct: Parse is their composition
+		reset()
+		v2 := s.shape.New()
+		s.err2 = nil
+		for _, pf := range []func(*http.Request, interface{}) error{httpx.ParsePath, httpx.ParseForm, httpx.ParseHeaders, httpx.ParseJsonBody} {
+			if s.err2 = pf(r, v2.Interface()); s.err2 != nil {
+				break
+			}
+		}
+		s.got2 = v2
 	}()
 	s.got = v
+}
+
+// c05rSend sends a hand-modified request and reports what the handler saw.
+func (s *c05rServer) send(req *http.Request) (hit bool, perr error, pv any, got reflect.Value, terr error) {
+	s.mu.Lock()
+	s.got, s.err, s.pv, s.hits = reflect.Value{}, nil, nil, 0
+	s.mu.Unlock()
+	resp, err := http.DefaultClient.Do(req)
+	if err != nil {
+		return false, nil, nil, reflect.Value{}, err
+	}
+	resp.Body.Close()
+	s.mu.Lock()
+	defer s.mu.Unlock()
+	return s.hits > 0, s.err, s.pv, s.got, nil
 }
 
 func c05rFirstDiff(q *c05rReq, want, got reflect.Value) (*g.Field, string) {
@@ -351,6 +383,7 @@ func TestVerifC05RoundTrip(t *testing.T) {
 		}
 		srv.mu.Lock()
 		got, perr, pv, stack, hits := srv.got, srv.err, srv.pv, srv.stack, srv.hits
+		got2, perr2 := srv.got2, srv.err2
 		srv.mu.Unlock()
 		m.Case(q.shape.String(), hits > 0 && len(parts) >= 2)
 		switch {
@@ -373,12 +406,199 @@ func TestVerifC05RoundTrip(t *testing.T) {
 			} else {
 				m.Count("roundtrip.equal", 1)
 			}
+			switch {
+			case perr2 != nil:
+				m.Violate("C05:httpx:parts-vs-parse:errorness", d, "Parse accepted the request, ParsePath/ParseForm/ParseHeaders/ParseJsonBody in sequence: %v", perr2)
+			case !g.Equal(got.Elem(), got2.Elem()):
+				m.Violate("C05:httpx:parts-vs-parse:value", d, "Parse -> %s\nthe four part parsers -> %s", g.Show(got), g.Show(got2))
+			default:
+				m.Count("httpx.parts-equal-parse", 1)
+				c05rFaults(m, srv, q, c, r, idx, d)
+			}
 		}
 		if m.WantSample() && idx%131 == 1 {
 			m.Sample(map[string]any{"pattern": q.pattern, "shape": q.shape.String(), "sent": g.Show(c.Expect), "parsed_equal": perr == nil && pv == nil && err == nil})
 		}
 		if idx%200 == 0 {
 			m.Progress()
+		}
+	}
+}
+
+// c05rFaults: the valid request went through; now single faults that the server-side parser must
+// refuse (it may not trust the client helper's own validation): the request is rebuilt with
+// buildRequest and modified by hand, or the struct is pushed outside its constraint and sent with Do
+// (then either the client helper or the server has to refuse it).
+func c05rFaults(m *vk.M, srv *c05rServer, q *c05rReq, c *g.Case, r *rand.Rand, idx int, d string) {
+	type fault struct {
+		kind string
+		mod  func(req *http.Request) *http.Request
+	}
+	var fs []fault
+	var clientFaults []func(v reflect.Value) string
+	setQuery := func(key, val string, del bool) func(*http.Request) *http.Request {
+		return func(req *http.Request) *http.Request {
+			qv := req.URL.Query()
+			if del {
+				qv.Del(key)
+			} else {
+				qv.Set(key, val)
+			}
+			req.URL.RawQuery = qv.Encode()
+			return req
+		}
+	}
+	setHeader := func(key, val string, del bool) func(*http.Request) *http.Request {
+		return func(req *http.Request) *http.Request {
+			if del {
+				req.Header.Del(key)
+			} else {
+				req.Header.Set(key, val)
+			}
+			return req
+		}
+	}
+	setPath := func(key, val string) func(*http.Request) *http.Request {
+		return func(req *http.Request) *http.Request {
+			pat := strings.Split(q.pattern, "/")
+			seg := strings.Split(req.URL.Path, "/")
+			for j := range pat {
+				if pat[j] == ":"+key && j < len(seg) {
+					seg[j] = val
+				}
+			}
+			req.URL.Path, req.URL.RawPath = strings.Join(seg, "/"), ""
+			return req
+		}
+	}
+	fs = append(fs, fault{"form:malformed-query", func(req *http.Request) *http.Request { req.URL.RawQuery += "&zz=%zz"; return req }})
+	hasJSON := false
+	for i, f := range q.shape.Root.Fields {
+		i, f := i, f
+		part := q.parts[f.Name]
+		if part == "json" {
+			hasJSON = true
+		}
+		k := f.T.K
+		if !k.IsLeaf() {
+			continue
+		}
+		if part == "path" && k.IsNum() {
+			ov := g.OverflowTexts(k)
+			fs = append(fs, fault{"path:overflow", setPath(f.Key, ov[r.Intn(len(ov))])}, fault{"path:not-a-number", setPath(f.Key, "12abc")})
+			if f.O.Range != nil {
+				if x := g.OutOfRangeText(r, k, f.O.Range); x != "" {
+					fs = append(fs, fault{"path:out-of-range", setPath(f.Key, x)})
+				}
+			}
+		}
+		if part == "header" {
+			key := f.Key
+			fs = append(fs, fault{"header:repeated", func(req *http.Request) *http.Request { req.Header.Add(key, "7"); return req }})
+		}
+		set := setQuery
+		if part == "header" {
+			set = setHeader
+		}
+		if part == "form" || part == "header" {
+			if !f.O.Optional && !f.O.HasDefault {
+				fs = append(fs, fault{part + ":required-absent", set(f.Key, "", true)})
+			}
+			if f.O.Range != nil && k.IsNum() {
+				if x := g.OutOfRangeText(r, k, f.O.Range); x != "" {
+					fs = append(fs, fault{part + ":out-of-range", set(f.Key, x, false)})
+				}
+			}
+			if len(f.O.Options) > 0 {
+				fs = append(fs, fault{part + ":not-in-options", set(f.Key, "101.75", false)})
+			}
+			if k.IsNum() {
+				ov := g.OverflowTexts(k)
+				fs = append(fs, fault{part + ":overflow", set(f.Key, ov[r.Intn(len(ov))], false)})
+				fs = append(fs, fault{part + ":not-a-number", set(f.Key, "12abc", false)})
+			}
+		}
+		// the struct itself pushed outside its declared constraint, sent with Do
+		if f.O.Range != nil && k.IsNum() {
+			if x := g.OutOfRangeText(r, k, f.O.Range); x != "" {
+				if pvv, ok := g.ParseLeaf(k, x); ok {
+					clientFaults = append(clientFaults, func(v reflect.Value) string { v.Field(i).Set(pvv); return part + ":out-of-range" })
+				}
+			}
+		}
+		if len(f.O.Options) > 0 && k == g.String {
+			clientFaults = append(clientFaults, func(v reflect.Value) string {
+				v.Field(i).SetString("zz-not-an-option")
+				return part + ":not-in-options"
+			})
+		}
+	}
+	if hasJSON {
+		for _, bad := range []string{"{", "", "[1]", "{\"x\":", "nul"} {
+			bad := bad
+			fs = append(fs, fault{"json:malformed-body", func(req *http.Request) *http.Request {
+				nr, _ := http.NewRequest(req.Method, req.URL.String(), strings.NewReader(bad))
+				nr.Header = req.Header
+				return nr
+			}})
+		}
+	}
+	if len(fs) > 4 {
+		r.Shuffle(len(fs), func(a, b int) { fs[a], fs[b] = fs[b], fs[a] })
+		fs = fs[:4]
+	}
+	for _, ft := range fs {
+		req, err := buildRequest(context.Background(), http.MethodPost, srv.srv.URL+q.pattern, c.Expect.Interface())
+		if err != nil {
+			return
+		}
+		req = ft.mod(req)
+		hit, perr, pv, got, terr := srv.send(req)
+		m.Count("fault-requests."+ft.kind, 1)
+		dd := d + ";fault=" + ft.kind + ";url=" + req.URL.String()
+		switch {
+		case terr != nil:
+			m.Inconclusive("case %d: transport error on fault request: %v", idx, terr)
+		case pv != nil:
+			m.Violate("C05:roundtrip:server-panic", dd, "httpx.Parse panicked on a faulty request (%s): %v", ft.kind, pv)
+		case hit && perr == nil && ft.kind == "json:malformed-body" && req.ContentLength == 0:
+			// an empty body is "no json part": every json field absent; accepted only if none is required - judged by equality
+			if !g.Equal(got.Elem(), c.Expect.Elem()) {
+				m.Count("fault-requests.empty-body-accepted-with-other-values", 1)
+			}
+		case hit && perr == nil && ft.kind == "header:repeated":
+			m.Count("fault-requests.repeated-header-accepted", 1) // which of several values wins is not asserted; only panic-freedom
+		case hit && perr == nil:
+			m.Violate("C05:roundtrip:fault-accepted:"+ft.kind, dd, "the server-side parser accepted a faulty request (%s); parsed: %s", ft.kind, g.Show(got))
+		default:
+			m.Count("fault-requests.rejected", 1)
+		}
+	}
+	if len(clientFaults) > 0 {
+		cf := clientFaults[r.Intn(len(clientFaults))]
+		v := reflect.New(c.Expect.Elem().Type())
+		v.Elem().Set(c.Expect.Elem())
+		kind := cf(v.Elem())
+		srv.mu.Lock()
+		srv.got, srv.err, srv.pv, srv.hits = reflect.Value{}, nil, nil, 0
+		srv.mu.Unlock()
+		resp, err := Do(context.Background(), http.MethodPost, srv.srv.URL+q.pattern, v.Interface())
+		if resp != nil {
+			resp.Body.Close()
+		}
+		srv.mu.Lock()
+		hits, perr, pv := srv.hits, srv.err, srv.pv
+		srv.mu.Unlock()
+		m.Count("client-fault."+kind, 1)
+		switch {
+		case pv != nil:
+			m.Violate("C05:roundtrip:server-panic", d, "httpx.Parse panicked (%s): %v", kind, pv)
+		case err != nil:
+			m.Count("client-fault.refused-by-client", 1)
+		case hits > 0 && perr != nil:
+			m.Count("client-fault.refused-by-server", 1)
+		case hits > 0:
+			m.Violate("C05:roundtrip:constraint-violation-accepted:"+kind, d+";sent-instead="+g.Show(v), "a request struct outside its declared constraint (%s) was sent by httpc.Do and accepted by httpx.Parse", kind)
 		}
 	}
 }
